@@ -50,6 +50,17 @@ func C07(ctx *core.Ctx) int {
 		}
 		matrix[k][lang+":"+outcome]++
 	}
+	// which (target, program) fail already under the program's default configuration
+	failsAtDefault := map[string]bool{}
+	for _, pc := range cases {
+		if pc.Accepted && !strings.Contains(pc.Prog.Name, "{") {
+			for _, l := range langs {
+				if cc := pc.Cells[l]; cc != nil && cc.GenErr == "" && cc.T != nil && cc.T.Stage != "" && cc.T.Stage != "timeout" && cc.T.Stage != "driver" {
+					failsAtDefault[l+"|"+pc.Prog.Name] = true
+				}
+			}
+		}
+	}
 	for _, pc := range cases {
 		if !pc.Accepted {
 			continue
@@ -95,8 +106,8 @@ func C07(ctx *core.Ctx) int {
 			// (a) the toolchain accepts the emitted files
 			if cc.T.Stage == "build" {
 				note(pc, l, "does not build")
-				ctx.Report(fmt.Sprintf("%s|emitted code rejected by the target toolchain|%s|%s", l, buildSig(l, cc.T.BuildLog), progClass(pc.Prog.Name)),
-					fmt.Sprintf("program %s (%s)\n%s\n--- DSL\n%s", pc.Prog.Name, l, core.Trunc(cc.T.BuildLog, 1500), core.Trunc(pc.Text, 600)), rep)
+				ctx.Report(fmt.Sprintf("%s|emitted code rejected by the target toolchain|%s", l, cellName(pc.Prog.Name, failsAtDefault[l+"|"+baseProgName(pc.Prog.Name)])),
+					fmt.Sprintf("program %s (%s): %s\n%s\n--- DSL\n%s", pc.Prog.Name, l, buildSig(l, cc.T.BuildLog), core.Trunc(cc.T.BuildLog, 1500), core.Trunc(pc.Text, 600)), rep)
 				continue
 			}
 			if cc.T.Stage != "" {
@@ -110,8 +121,8 @@ func C07(ctx *core.Ctx) int {
 					st.blockers[l+": HARNESS driver does not build: "+buildSig(l, cc.T.BuildLog)]++
 					continue
 				}
-				ctx.Report(fmt.Sprintf("%s|emitted code dies when exercised|%s|%s", l, buildSig(l, cc.T.BuildLog), progClass(pc.Prog.Name)),
-					fmt.Sprintf("program %s (%s)\n%s", pc.Prog.Name, l, core.Trunc(cc.T.BuildLog, 1500)), rep)
+				ctx.Report(fmt.Sprintf("%s|emitted code dies when exercised|%s", l, cellName(pc.Prog.Name, failsAtDefault[l+"|"+baseProgName(pc.Prog.Name)])),
+					fmt.Sprintf("program %s (%s): %s\n%s", pc.Prog.Name, l, buildSig(l, cc.T.BuildLog), core.Trunc(cc.T.BuildLog, 1500)), rep)
 				continue
 			}
 			note(pc, l, "builds")
@@ -378,6 +389,12 @@ func C17(ctx *core.Ctx) int {
 	wg.Wait()
 	passed, ran := 0, 0
 	distinct := map[string]bool{}
+	testFailsAtDefault := map[string]bool{}
+	for _, c := range cells {
+		if c.t != nil && !c.t.TestOK && !strings.Contains(c.p.Name, "{") && !strings.Contains(c.t.TestLog, "timeout after") {
+			testFailsAtDefault[c.lang+"|"+c.p.Name] = true
+		}
+	}
 	for _, c := range cells {
 		if c.t == nil {
 			continue
@@ -401,11 +418,11 @@ func C17(ctx *core.Ctx) int {
 					fmt.Sprintf("program %s (%s): %d tests ran, %d packets declared\n%s", c.p.Name, c.lang, c.t.TestRan, want, core.Trunc(c.t.TestLog, 800)), rep)
 			}
 		case c.t.TestRan == 0 && !strings.Contains(strings.ToLower(c.t.TestLog), "error") && !strings.Contains(c.t.TestLog, "FAIL"):
-			ctx.Report(fmt.Sprintf("%s|no emitted test ran|%s", c.lang, buildSig(c.lang, c.t.TestLog)),
-				fmt.Sprintf("program %s (%s)\n%s", c.p.Name, c.lang, core.Trunc(c.t.TestLog, 1200)), rep)
+			ctx.Report(fmt.Sprintf("%s|no emitted test ran|%s", c.lang, cellName(c.p.Name, testFailsAtDefault[c.lang+"|"+baseProgName(c.p.Name)])),
+				fmt.Sprintf("program %s (%s): %s\n%s", c.p.Name, c.lang, buildSig(c.lang, c.t.TestLog), core.Trunc(c.t.TestLog, 1200)), rep)
 		default:
-			ctx.Report(fmt.Sprintf("%s|emitted self-test does not build or fails|%s|%s", c.lang, testSig(c.lang, c.t.TestLog), progClass(c.p.Name)),
-				fmt.Sprintf("program %s (%s)\n%s\n--- DSL\n%s", c.p.Name, c.lang, core.Trunc(c.t.TestLog, 1500), core.Trunc(c.text, 600)), rep)
+			ctx.Report(fmt.Sprintf("%s|emitted self-test does not build or fails|%s|%s", c.lang, testOutcome(c.lang, c.t.TestLog), cellName(c.p.Name, testFailsAtDefault[c.lang+"|"+baseProgName(c.p.Name)])),
+				fmt.Sprintf("program %s (%s): %s\n%s\n--- DSL\n%s", c.p.Name, c.lang, testSig(c.lang, c.t.TestLog), core.Trunc(c.t.TestLog, 1500), core.Trunc(c.text, 600)), rep)
 		}
 	}
 	samples := []any{}
@@ -430,6 +447,57 @@ func C17(ctx *core.Ctx) int {
 	}
 	ctx.Assumes = append(ctx.Assumes, "JUnit and gtest are minimal stand-ins for the assertion API the emitted tests use", "sample population (nested / repeated / payload members really filled) is not yet observed separately")
 	return ctx.Finish("exploration", cov)
+}
+
+// Signatures of whole-cell failures (the emitted code of a program does not build / dies / its tests fail) name
+// what a user can observe and reproduce - target, outcome, program - and not the text of the toolchain's first
+// diagnostic or of a test's name: a change of the emitted text that keeps the behaviour (a renamed local, a
+// reworded comment, a renamed test case) changes those texts for cells that fail already, and must not turn a
+// recorded finding into a new alarm.  The diagnostic is in the detail.  A program that fails under its default
+// configuration is named without configuration (it fails under the others too); one that fails only under some
+// option setting is named with it.
+
+func baseProgName(name string) string {
+	if i := strings.Index(name, "{"); i > 0 {
+		return name[:i]
+	}
+	return name
+}
+
+func cellName(name string, failsAtDefault bool) string {
+	if failsAtDefault {
+		return baseProgName(name)
+	}
+	return name
+}
+
+var reTestWord = regexp.MustCompile(`[A-Z]?[a-z0-9]+|[A-Z]+`)
+
+// testOutcome: "does not build", or "tests fail for <packets>" with the packets recovered from the names of the
+// failing tests (whatever the naming convention of the emitted test is).
+func testOutcome(lang, log string) string {
+	s := testSig(lang, log)
+	if !strings.HasPrefix(s, "tests fail: ") {
+		return "does not build"
+	}
+	var pk []string
+	for _, t := range strings.Split(strings.TrimPrefix(s, "tests fail: "), ", ") {
+		if i := strings.Index(t, " "); i > 0 {
+			t = t[:i] // drop the throwable of the JUnit stand-in
+		}
+		var words []string
+		for _, w := range reTestWord.FindAllString(t, -1) {
+			switch lw := strings.ToLower(w); lw {
+			case "test", "tests", "codec", "encode", "decode", "deocde", "and", "roundtrip", "round", "trip":
+			default:
+				if len(words) == 0 || words[len(words)-1] != lw {
+					words = append(words, lw)
+				}
+			}
+		}
+		pk = append(pk, strings.Join(uniq(words), ""))
+	}
+	return "tests fail for " + strings.Join(uniq(pk), ", ")
 }
 
 var reFailedTests = []*regexp.Regexp{
